@@ -578,6 +578,54 @@ theorem C02_roundtrip_transposed_witness :
     (compositeRun (nodeSem termNodes) ((acbWiring.roundtrip true [0, 1, 2] (List.range 12)).toGraph id [0] (List.range 12)) 100
       (S.init Store.init (fun _ => []))).fired = [0, 1, 2] := by decide +kernel
 
+/-! ## edits between wiring and running: `pull()` of a child, `replace_child` -/
+
+/-- PULL KEEPS THE WIRING: for every wiring and every pulled data tree, after `child.pull()` every emitter has its
+receiver list and every trigger its member list exactly as before — the temporary linear wiring leaves no trace -/
+theorem C02_pull_keeps_wiring (w : Wiring) (tree : List Nat) :
+    (∀ s, (w.pull true tree).out s = w.out s) ∧ (∀ r, (w.pull true tree).runIn r = w.runIn r) ∧
+    (∀ r, (w.pull true tree).accIn r = w.accIn r) :=
+  pull_spec w tree
+
+/-- `0 >> 1`, `0 >> 2`, `3 << (1, 2)` -/
+def joinWiring : Wiring :=
+  (((Wiring.empty.connect (sigRan 0) { node := 1, acc := false }).connect (sigRan 0) { node := 2, acc := false }).connect
+    (sigRan 1) { node := 3, acc := true }).connect (sigRan 2) { node := 3, acc := true }
+
+/-- SEEDED CHANGE C02-9 (only the pulled tree's own lists are put back), `1.pull()`: the join forgets 1 although `1.ran`
+still lists the join, 0 no longer reaches 1 — the next run is 0, 2, 3 (join early, 1 never) instead of 0, 2, 1, 3 -/
+theorem C02_pull_partial_restore_witness :
+    (joinWiring.pull false [1]).accIn 3 = [sigRan 2] ∧ (joinWiring.pull false [1]).out (sigRan 1) = [{ node := 3, acc := true }] ∧
+    (joinWiring.pull false [1]).out (sigRan 0) = [{ node := 2, acc := false }] ∧
+    (compositeRun (nodeSem termNodes) ((joinWiring.pull true [1]).toGraph id [0] (List.range 16)) 100
+      (S.init Store.init (fun _ => []))).fired = [0, 2, 1, 3] ∧
+    (compositeRun (nodeSem termNodes) ((joinWiring.pull false [1]).toGraph id [0] (List.range 16)) 100
+      (S.init Store.init (fun _ => []))).fired = [0, 2, 3] := by decide +kernel
+
+/-- REPLACE KEEPS THE ORDER: for every wiring, replacing child `i` (not connected to itself) by the fresh object `j`
+yields the image of the wiring under the renaming `i ↦ j`: every emitter's receiver list and every trigger's member list,
+in order — the replacement's own lists included -/
+theorem C02_replace_keeps_order (w : Wiring) (i j : Nat) (hij : i ≠ j)
+    (hself : ∀ s r, sigNode s = i → r ∈ w.out s → r.node ≠ i)
+    (hselfIn : ∀ s, (s ∈ w.runIn i ∨ s ∈ w.accIn i) → sigNode s ≠ i) :
+    (∀ s, sigNode s ≠ j → (w.replace false i j).out (renSig i j s) = (w.out s).map (renRecv i j)) ∧
+    (∀ r, r ≠ j → (w.replace false i j).runIn (if r = i then j else r) = (w.runIn r).map (renSig i j)) ∧
+    (∀ r, r ≠ j → (w.replace false i j).accIn (if r = i then j else r) = (w.accIn r).map (renSig i j)) :=
+  replace_spec w i j hij hself hselfIn
+
+example : (joinWiring.replace false 0 4).out (sigRan 4) = [{ node := 2, acc := false }, { node := 1, acc := false }] ∧
+          (joinWiring.replace false 3 4).accIn 4 = [sigRan 2, sigRan 1] ∧
+          (joinWiring.replace false 3 4).out (sigRan 1) = [{ node := 4, acc := true }] := by decide
+
+/-- SEEDED CHANGE C02-8 (the replacement keeps the lists `copy_io` built by prepending): after replacing the emitter 0 by
+4 its receivers come back as `[1, 2]`; the flow that ran 0, 2, 1, 3 runs 4, 1, 2, 3 -/
+theorem C02_replace_reversed_witness :
+    (joinWiring.replace true 0 4).out (sigRan 4) = [{ node := 1, acc := false }, { node := 2, acc := false }] ∧
+    (compositeRun (nodeSem termNodes) ((joinWiring.replace false 0 4).toGraph id [4] (List.range 20)) 100
+      (S.init Store.init (fun _ => []))).fired = [4, 2, 1, 3] ∧
+    (compositeRun (nodeSem termNodes) ((joinWiring.replace true 0 4).toGraph id [4] (List.range 20)) 100
+      (S.init Store.init (fun _ => []))).fired = [4, 1, 2, 3] := by decide +kernel
+
 end PwVerif.C02
 
 #print axioms PwVerif.C02.C02_any
@@ -611,3 +659,7 @@ end PwVerif.C02
 #print axioms PwVerif.C02.C02_macro_ui_only_touches_starters
 #print axioms PwVerif.C02.C02_roundtrip_keeps_firing_order
 #print axioms PwVerif.C02.C02_roundtrip_transposed_witness
+#print axioms PwVerif.C02.C02_pull_keeps_wiring
+#print axioms PwVerif.C02.C02_pull_partial_restore_witness
+#print axioms PwVerif.C02.C02_replace_keeps_order
+#print axioms PwVerif.C02.C02_replace_reversed_witness
